@@ -113,33 +113,66 @@ package fox
 //@ fun prevKind(u string, k int) int = (lastOpen(u, k) >= 1 && u[lastOpen(u, k)-1] == '*') ? 2 : (lastOpen(u, k) >= 0 ? 1 : 0)
 //@ fun staticSince(u string, k int) int = lastOpen(u, k) >= 0 ? k - nextClose(u, lastOpen(u, k)) - 1 : k
 
+//@ -- position k lies inside a wildcard "{...}" (braces included)
+//@ pred inside(u string, k int) = lastOpen(u, k+1) >= 0 && k <= nextClose(u, lastOpen(u, k+1))
+//@ pred ldh(c int) = ('a' <= c && c <= 'z') || ('A' <= c && c <= 'Z') || c == '_' || ('0' <= c && c <= '9') || c == '-'
+//@ pred numeric(c int) = ('0' <= c && c <= '9') || c == '.'
+
+//@ -- labelLen(u, k): number of consecutive LDH bytes ending just before k; partAt: static length of the label ending at k
+//@ fun labelLen(u string, k int) int
+//@ axiom labelLen.zero: forall u string :: labelLen(u, 0) == 0
+//@ axiom labelLen.step: forall u string, k int :: {labelLen(u, k), u[k]} k >= 0 ==> labelLen(u, k+1) == (ldh(u[k]) ? labelLen(u, k) + 1 : 0)
+//@ exec labelLen = func() int { n := 0; for j := 0; j < k && j < len(u); j++ { if spec_ldh(int(u[j])) { n++ } else { n = 0 } }; return n }()
+//@ fun partAt(u string, k int) int = (k > 0 && u[k-1] == '}') ? labelLen(u, lastOpen(u, k)) : labelLen(u, k)
+//@ -- hostLen(u, k): number of bytes before k that are not part of a wildcard
+//@ fun hostLen(u string, k int) int
+//@ axiom hostLen.zero: forall u string :: hostLen(u, 0) == 0
+//@ axiom hostLen.step: forall u string, k int :: {hostLen(u, k), u[k]} k >= 0 ==> hostLen(u, k+1) == hostLen(u, k) + (inside(u, k) ? 0 : 1)
+//@ exec hostLen = func() int { n := 0; for j := 0; j < k && j < len(u); j++ { if !spec_inside(u, j) { n++ } }; return n }()
+
 //@ -- a name character of a wildcard opened at k
 //@ pred nameChar(u string, k int, m int, endHost int) = u[m] != '/' && u[m] != '*' && u[m] != '{' && u[m] != '}' && (k < endHost ==> u[m] != '.')
 //@ -- the wildcard opened by the '{' at k is well formed and closed before position lim
-//@ pred closedWild(u string, k int, endHost int, maxKey int, lim int) = nextClose(u, k) < lim && nextClose(u, k) < len(u) && nextClose(u, k) >= k+2 && nextClose(u, k) - k - 1 <= maxKey && (forall m int :: k < m && m < nextClose(u, k) ==> nameChar(u, k, m, endHost)) && (nextClose(u, k)+1 == len(u) || u[nextClose(u, k)+1] == '/' || (k < endHost && u[nextClose(u, k)+1] == '.'))
+//@ pred closedWild(u string, k int, endHost int, maxKey int, lim int) = nextClose(u, k) < lim && nextClose(u, k) < len(u) && nextClose(u, k) >= k+2 && nextClose(u, k) - k - 1 <= maxKey && (forall m int :: {u[m]} k < m && m < nextClose(u, k) ==> nameChar(u, k, m, endHost)) && (nextClose(u, k)+1 == len(u) || u[nextClose(u, k)+1] == '/' || (k < endHost && u[nextClose(u, k)+1] == '.'))
 
 //@ func (*Router).parseRoute props C10
 //@   requires fox != nil
 //@   replay-input maxParams = fox.maxParams
 //@   replay-input maxKey = fox.maxParamKeyBytes
 //@   replay-setup fox := &Router{maxParams: uint16(maxParams), maxParamKeyBytes: uint16(maxKey)}
-//@   ensures endhost: result2 == nil ==> 0 <= result1 && result1 < len(url) && url[result1] == '/' && forall k int :: 0 <= k && k < result1 ==> url[k] != '/'
-//@   ensures star-brace: result2 == nil ==> forall k int :: 0 <= k && k < len(url) && url[k] == '*' ==> k > result1 && k+1 < len(url) && url[k+1] == '{'
-//@   ensures wildcard: result2 == nil ==> forall k int :: 0 <= k && k < len(url) && url[k] == '{' ==> closedWild(url, k, result1, fox.maxParamKeyBytes, len(url))
+//@   ensures endhost: result2 == nil ==> 0 <= result1 && result1 < len(url) && url[result1] == '/' && forall k int :: {url[k]} 0 <= k && k < result1 ==> url[k] != '/'
+//@   ensures star-brace: result2 == nil ==> forall k int :: {url[k]} 0 <= k && k < len(url) && url[k] == '*' ==> k > result1 && k+1 < len(url) && url[k+1] == '{'
+//@   ensures wildcard: result2 == nil ==> forall k int :: {url[k]} 0 <= k && k < len(url) && url[k] == '{' ==> closedWild(url, k, result1, fox.maxParamKeyBytes, len(url))
 //@   ensures count: result2 == nil ==> result0 == cnt(url, len(url)) && result0 <= fox.maxParams
-//@   ensures catchall-gap: result2 == nil ==> forall k int :: 0 <= k && k < len(url) && url[k] == '*' && prevKind(url, k) == 2 ==> staticSince(url, k) >= 2
+//@   ensures host-alphabet: result2 == nil ==> forall k int :: {url[k]} 0 <= k && k < result1 && !inside(url, k) ==> ldh(url[k]) || url[k] == '.'
+//@   ensures host-edges: result2 == nil && result1 > 0 ==> url[0] != '.' && url[0] != '-' && url[result1-1] != '.' && url[result1-1] != '-'
+//@   ensures host-adjacent: result2 == nil ==> forall k int :: {url[k]} 0 < k && k < result1 && !inside(url, k) && !inside(url, k-1) ==> !(url[k-1] == '.' && url[k] == '-') && !(url[k-1] == '-' && url[k] == '.') && !(url[k-1] == '.' && url[k] == '.')
+//@   ensures host-nonnumeric: result2 == nil && result1 > 0 ==> exists k int :: 0 <= k && k < result1 && !numeric(url[k])
+//@   ensures host-label: result2 == nil ==> forall k int :: {url[k]} 0 < k && k <= result1 && !inside(url, k) && (url[k] == '.' || k == result1) ==> partAt(url, k) <= 63
+//@   ensures host-total: result2 == nil && result1 > 0 ==> hostLen(url, result1) <= 255
+//@   ensures catchall-gap: result2 == nil ==> forall k int :: {url[k]} 0 <= k && k < len(url) && url[k] == '*' && prevKind(url, k) == 2 ==> staticSince(url, k) >= 2
 //@   loop 1: invariant idx: 0 <= i && i <= len(url)+1 && (i == len(url)+1 ==> state == stateCatchAll)
-//@   loop 1: invariant eh: 0 <= endHost && endHost < len(url) && url[endHost] == '/' && forall k int :: 0 <= k && k < endHost ==> url[k] != '/'
+//@   loop 1: invariant eh: 0 <= endHost && endHost < len(url) && url[endHost] == '/' && forall k int :: {url[k]} 0 <= k && k < endHost ==> url[k] != '/'
 //@   loop 1: invariant st: state == stateDefault || state == stateParam || state == stateCatchAll
 //@   loop 1: invariant delim: delim == ((i > endHost || endHost == 0) ? '/' : '.')
-//@   loop 1: invariant stars: forall k int :: 0 <= k && k < i && k < len(url) && url[k] == '*' ==> k > endHost && k+1 < i && (k+1 < len(url) ==> url[k+1] == '{')
-//@   loop 1: invariant closed: forall k int :: 0 <= k && k < i && k < len(url) && url[k] == '{' && !(state != stateDefault && k == startParam) ==> closedWild(url, k, endHost, fox.maxParamKeyBytes, i)
+//@   loop 1: invariant stars: forall k int :: {url[k]} 0 <= k && k < i && k < len(url) && url[k] == '*' ==> k > endHost && k+1 < i && (k+1 < len(url) ==> url[k+1] == '{')
+//@   loop 1: invariant closed: forall k int :: {url[k]} 0 <= k && k < i && k < len(url) && url[k] == '{' && !(state != stateDefault && k == startParam) ==> closedWild(url, k, endHost, fox.maxParamKeyBytes, i)
 //@   loop 1: invariant open: state != stateDefault ==> 0 <= startParam && startParam < i && (startParam < len(url) ==> url[startParam] == '{') && (inParam <==> i - startParam >= 2) && (i <= len(url) ==> i - startParam - 1 <= fox.maxParamKeyBytes)
-//@   loop 1: invariant name: state != stateDefault ==> forall m int :: startParam < m && m < i && m < len(url) ==> nameChar(url, startParam, m, endHost)
+//@   loop 1: invariant name: state != stateDefault ==> forall m int :: {url[m]} startParam < m && m < i && m < len(url) ==> nameChar(url, startParam, m, endHost)
 //@   loop 1: invariant hostcatch: state == stateCatchAll ==> startParam > endHost
 //@   loop 1: invariant count: (i <= len(url) ==> paramCnt == cnt(url, i)) && paramCnt <= fox.maxParams
 //@   loop 1: invariant noname: state == stateDefault ==> !inParam
 //@   loop 1: invariant wkind: (state == stateCatchAll ==> url[startParam-1] == '*') && (state == stateParam ==> startParam == 0 || url[startParam-1] != '*')
 //@   loop 1: invariant prev: i <= len(url) ==> previous == prevKind(url, state == stateCatchAll ? startParam-1 : (state == stateParam ? startParam : i)) && countStatic == staticSince(url, state == stateCatchAll ? startParam-1 : (state == stateParam ? startParam : i))
-//@   loop 1: invariant gaps: forall k int :: 0 <= k && k < i && k < len(url) && url[k] == '*' && !(state == stateCatchAll && k == startParam-1) && prevKind(url, k) == 2 ==> staticSince(url, k) >= 2
+//@   loop 1: invariant gaps: forall k int :: {url[k]} 0 <= k && k < i && k < len(url) && url[k] == '*' && !(state == stateCatchAll && k == startParam-1) && prevKind(url, k) == 2 ==> staticSince(url, k) >= 2
+//@   loop 1: invariant lead: endHost > 0 ==> url[0] != '.' && url[0] != '-'
+//@   loop 1: invariant lastc: i > 0 && i <= endHost && state == stateDefault && url[i-1] != '}' ==> last == url[i-1]
+//@   loop 1: invariant afterclose: i > 0 && i <= endHost && state == stateDefault && url[i-1] == '}' ==> url[i] == '.' || url[i] == '/'
+//@   loop 1: invariant lastc2: i > endHost && endHost > 0 && url[endHost-1] != '}' ==> last == url[endHost-1]
+//@   loop 1: invariant alpha: forall k int :: {url[k]} 0 <= k && k < endHost && k < (state == stateDefault ? i : startParam) && !inside(url, k) ==> ldh(url[k]) || url[k] == '.'
+//@   loop 1: invariant adjacent: forall k int :: {url[k]} 0 < k && k < endHost && k < (state == stateDefault ? i : startParam) && !inside(url, k) && !inside(url, k-1) ==> !(url[k-1] == '.' && url[k] == '-') && !(url[k-1] == '-' && url[k] == '.') && !(url[k-1] == '.' && url[k] == '.')
+//@   loop 1: invariant nonnum: nonNumeric ==> exists k int :: 0 <= k && k < i && k < endHost && !numeric(url[k])
+//@   loop 1: invariant part: partlen == (state == stateParam && startParam < endHost ? labelLen(url, startParam) : partAt(url, min(i, endHost)))
+//@   loop 1: invariant labels: forall k int :: {url[k]} 0 < k && k < endHost && k < (state == stateDefault ? i : startParam) && !inside(url, k) && url[k] == '.' ==> partAt(url, k) <= 63
+//@   loop 1: invariant total: totallen + partlen == hostLen(url, min(i, endHost))
 //@   loop 1: decreases len(url) + 1 - i
